@@ -25,6 +25,8 @@ HEADER = ("From Coq Require Import ZArith QArith String List.\nImport ListNotati
 KINDS = {"inner_join": "JInner", "left_join": "JLeft", "full_join": "JFull", "cross_join": "JCross"}
 ID_DOM = {"Id_1": ("Integer", [1, 2, 3, 4]), "Id_2": ("String", ["A", "B", "C"]), "K": ("Integer", [7, 8, 9])}
 KNOWN_FULL3 = "full_join:3-operands:key-missing-in-first-operand"
+KNOWN_ISNULL_NOT = "body-expr:isnull-of-not"
+ISNULL_NOT = "(CUn IsNull (CUn Not "
 
 
 # ------------------------------------------------------------------ inputs
@@ -201,9 +203,8 @@ class Fresh:
         return [f"Z_{self.n + 1 + i}" for i in range(k)]
 
 
-def propose_clause(rng, cols: List[Col], hist: Dict[str, int], fresh: "Fresh"):
+def propose_clause(rng, kind: str, cols: List[Col], hist: Dict[str, int], fresh: "Fresh"):
     """(clause, new cols) or None.  clause = (kind, payload…) carrying both the VTL text pieces and the Coq pieces"""
-    kind = rng.choice(["filter", "filter", "calc", "calc", "keep", "drop", "rename", "rename"])
     spell = {ref_spelling(rng, c): c for c in cols}
     env = {s: c.typ for s, c in spell.items()}
     nonid = [c for c in cols if not c.is_id]
@@ -259,13 +260,14 @@ def propose_clause(rng, cols: List[Col], hist: Dict[str, int], fresh: "Fresh"):
     return ("rename", pairs), new
 
 
-def fix_clause(rng, cols: List[Col], fresh: "Fresh"):
-    """a clause after which no two components unqualify to the same name"""
+def fix_clause(rng, cols: List[Col], fresh: "Fresh", mode: str):
+    """a clause of kind `mode` after which no two components unqualify to the same name (None when impossible)"""
     cl = clashes(cols)
     if not cl:
         return None
     ids_clash = any(c.is_id for g in cl for c in g)
-    mode = "rename" if ids_clash else rng.choice(["rename", "rename", "drop", "keep"])
+    if ids_clash and mode != "rename":
+        return None
     if mode == "rename":
         pairs, new = [], list(cols)
         for g in cl:
@@ -365,28 +367,68 @@ def make_case(rng, malformed=False, tries=30):
         fresh = Fresh()
         body: List[Any] = []
         rejected = 0
-        want = rng.choice([0, 1, 1, 2, 2, 3, 3])
+        # the grammar fixes the order of the body: [filter] [calc] [keep|drop] [rename], each at most once
+        slots = [k for k, p in (("filter", 0.4), ("calc", 0.4), ("keepdrop", 0.35), ("rename", 0.35)) if rng.random() < p]
         resolve = rng.random() < (0.5 if malformed else 0.9)
-        n_free = want - (1 if (resolve and clashes(cols)) else 0)
-        attempts = 0
-        while len(body) < max(n_free, 0) and attempts < 14:
-            attempts += 1
-            p = propose_clause(rng, cols, hist, fresh)
-            if p is None:
-                continue
-            cl, new = p
+        while len(slots) > 3:
+            slots.remove(rng.choice(slots))
+
+        def accept(cl):
+            nonlocal rejected
             txt = join_text(kind, ops_txt, using, body + [cl])
             r = engine.semantic_case(f"{prefix}DS_t <- {txt};", structs)
             if not r["ok"] and not (r["err"][0] == "Semantic" and r["err"][1] in JOIN_CODES_MODELLED and r["err"][1] != "1-1-1-10"):
                 rejected += 1
-                continue
-            body.append(cl)
-            cols = new
+                return False
+            return True
+
+        for slot in ("filter", "calc"):
+            if slot in slots:
+                for _ in range(4):
+                    p = propose_clause(rng, slot, cols, hist, fresh)
+                    if p is not None and accept(p[0]):
+                        body.append(p[0])
+                        cols = p[1]
+                        break
+        # the homonyms still present must be resolved by the keep/drop slot or by the rename slot
+        fix_mode = None
         if resolve and clashes(cols):
-            f = fix_clause(rng, cols, fresh)
-            if f is not None:
+            ids_clash = any(c.is_id for g in clashes(cols) for c in g)
+            fix_mode = "rename" if ids_clash else rng.choice(["rename", "rename", "drop", "keep"])
+        if fix_mode in ("drop", "keep"):
+            f = fix_clause(rng, cols, fresh, fix_mode)
+            if f is None:
+                fix_mode = "rename"
+            else:
                 body.append(f[0])
                 cols = f[1]
+        elif "keepdrop" in slots and len(body) < (2 if fix_mode == "rename" else 3):
+            for _ in range(4):
+                p = propose_clause(rng, rng.choice(["keep", "drop"]), cols, hist, fresh)
+                if p is not None and accept(p[0]):
+                    body.append(p[0])
+                    cols = p[1]
+                    break
+        if fix_mode == "rename" and clashes(cols):
+            f = fix_clause(rng, cols, fresh, "rename")
+            if f is not None:
+                cl, new_cols = f
+                if "rename" in slots and rng.random() < 0.5:      # plus a renaming that is not needed
+                    extra = [c for c in new_cols if not c.is_id and c.name not in [n for _, n in cl[1]] and "#" not in c.name]
+                    if extra:
+                        c = rng.choice(extra)
+                        nn = fresh.pop()
+                        cl = ("rename", cl[1] + [(ref_spelling(rng, c), nn)])
+                        new_cols = [Col(nn, x.typ, x.is_id, None, nn) if x is c else x for x in new_cols]
+                body.append(cl)
+                cols = new_cols
+        elif "rename" in slots and len(body) < 3:
+            for _ in range(4):
+                p = propose_clause(rng, "rename", cols, hist, fresh)
+                if p is not None and accept(p[0]):
+                    body.append(p[0])
+                    cols = p[1]
+                    break
         txt = join_text(kind, ops_txt, using, body)
         r = engine.semantic_case(f"{prefix}DS_t <- {txt};", structs)
         if not r["ok"]:
@@ -524,9 +566,11 @@ def run_k(ctx, n_valid: int, n_malformed: int, tag="c04"):
     rejected = sum(c["rejected"] for c in cases)
     ctx.log(f"generated and ran {len(cases) - n_corpus} cases (+{n_corpus} corpus) on the engine")
     model = eval_model(cases, tag)
-    full3 = [i for i, c in enumerate(cases) if c.get("feat", {}).get("kind") == "full_join" and c.get("feat", {}).get("n_ops", 2) >= 3]
+    # cases on which the engine-faithful variant differs from the specification by construction
+    full3 = [i for i, c in enumerate(cases) if (c.get("feat", {}).get("kind") == "full_join" and c.get("feat", {}).get("n_ops", 2) >= 3)
+             or ISNULL_NOT in c["coq"]]
     impl = dict(zip(full3, eval_model([cases[i] for i in full3], tag + "_impl", impl=True))) if full3 else {}
-    ctx.log(f"model evaluated ({len(cases)} spec, {len(full3)} engine-faithful full joins)")
+    ctx.log(f"model evaluated ({len(cases)} spec, {len(full3)} engine-faithful variants)")
     dist: Dict[str, Dict[str, int]] = {k: {} for k in ("kind", "n_ops", "config", "using", "alias", "dup_mode", "overlap", "body_len",
                                                        "dup_names", "semantic", "result_rows", "engine_errors", "clauses")}
 
@@ -558,9 +602,14 @@ def run_k(ctx, n_valid: int, n_malformed: int, tag="c04"):
         dis += 1
         pred = engine_dup_keys(er)
         if i in impl and exprk.compare(er, impl[i]) is None:
-            ctx.violation(KNOWN_FULL3, f"{c['script'].strip()} :: engine = engine-faithful model (left-deep ON first operand), "
-                          f"differs from the relational full join: {d}" + (f"; {pred}" if pred else ""),
-                          {"case": case_json(c), "disagreement": d, "predicate": pred})
+            is_full3 = f.get("kind") == "full_join" and f.get("n_ops", 2) >= 3
+            if ISNULL_NOT in c["coq"] and not (is_full3 and pred):
+                ctx.violation(KNOWN_ISNULL_NOT, f"{c['script'].strip()} :: engine = engine-faithful model (isnull(not x) read as not isnull(x)), "
+                              f"differs from the specification: {d}", {"case": case_json(c), "disagreement": d})
+            else:
+                ctx.violation(KNOWN_FULL3, f"{c['script'].strip()} :: engine = engine-faithful model (left-deep ON first operand), "
+                              f"differs from the relational full join: {d}" + (f"; {pred}" if pred else ""),
+                              {"case": case_json(c), "disagreement": d, "predicate": pred})
             continue
         raw = (not er["ok"]) and er["err"][0] in ("RawDuckDB", "RawPython")
         key = ("raw:" + er["err"][1] if raw else "wrong-result") + ":" + f.get("kind", "?") + (":using" if f.get("using") else "") + \
